@@ -288,7 +288,7 @@ package nfs
 //@   ensures dirDone(dip, op) && dip.Size == old(dip.Size) && dip.Kind == 2
 
 //@ spec Ls3
-//@   props C13 C06 C03 C11 C14 C10 C02
+//@   props C13 C06 C03 C11 C14 C10 C02 C08
 //@   requires dirReady(dip, op) && dip.Kind == 2
 //@   requires [E1-cookie] uint64(start) & 127 == 0 @C13 @C11
 //@   preserves [allocInv] allocInv() @C15 @C04
@@ -440,6 +440,8 @@ package nfs
 //@   modifies $FILEMODS, $DIRMODS, dirtyinum, wroteinum, abits
 //@   ensures [L3-dirs] result ==> inodes[0].Inum == fromfh.Ino && inodes[0].Gen == fromfh.Gen && (len(inodes) == 3 ==> inodes[0].Inum == tofh.Ino && inodes[0].Gen == tofh.Gen) && (len(inodes) == 4 ==> inodes[1].Inum == tofh.Ino && inodes[1].Gen == tofh.Gen) @C08 @C03
 //@   ensures [L3-names] result ==> (len(inodes) == 3 ==> inodes[0].Kind == 2 && dnames[inodes[0].Inum][fromn] == inodes[1].Inum && dnames[inodes[0].Inum][ton] == inodes[2].Inum) && (len(inodes) == 4 ==> inodes[0].Kind == 2 && inodes[1].Kind == 2 && dnames[inodes[0].Inum][fromn] == inodes[2].Inum && dnames[inodes[1].Inum][ton] == inodes[3].Inum) @C03 @C02
+//@   ensures [D4-complete] len(inodes) == 3 && inodes[0].Kind == 2 && inodes[0].Inum == fromfh.Ino && inodes[0].Gen == fromfh.Gen && inodes[0].Inum == tofh.Ino && inodes[0].Gen == tofh.Gen && old(dnames)[inodes[0].Inum][fromn] == inodes[1].Inum && old(dnames)[inodes[0].Inum][ton] == inodes[2].Inum ==> result @C06
+//@   ensures [D4-complete4] len(inodes) == 4 && inodes[0].Kind == 2 && inodes[1].Kind == 2 && inodes[0].Inum == fromfh.Ino && inodes[0].Gen == fromfh.Gen && inodes[1].Inum == tofh.Ino && inodes[1].Gen == tofh.Gen && old(dnames)[inodes[0].Inum][fromn] == inodes[2].Inum && old(dnames)[inodes[1].Inum][ton] == inodes[3].Inum ==> result @C06
 //@   ensures txOpen(op) && allClean() && held == old(held) && abits[theIalloc] == old(abits)[theIalloc]
 //@   ensures lockedDir(inodes[0]) && lockedDir(inodes[1]) && lockedDir(inodes[2]) && (len(inodes) == 4 ==> lockedDir(inodes[3]))
 
